@@ -19,7 +19,8 @@ function cfgOf (prefix) {
     literals: false,
     csiMethods: [
       { src: 'plusOperator', operator: true }, { src: 'tplOperator', operator: true },
-      { src: 'trim' }, { src: 'trimStart' }, { src: 'trimEnd' }, { src: 'concat' }
+      { src: 'trim' }, { src: 'trimStart' }, { src: 'trimEnd' }, { src: 'concat' },
+      { src: 'aloneMethod', allowedWithoutCallee: true }
     ]
   }
 }
@@ -45,7 +46,7 @@ function plan (seed, run, tier) {
 
 function jobs (plan) {
   if (plan.mode === 'h5') {
-    const js = [{ cfg: cfgOf('sim'), prng_seed: 1, file: FILE, code: plan.text }]
+    const js = [{ cfg: cfgOf(plan.prefix || 'sim'), prng_seed: 1, file: FILE, code: plan.text }]
     if (plan.preJob) js.unshift({ cfg: cfgOf('other'), prng_seed: 1, file: '/sim/c06/pre.js', code: 'function pre(a, b) { const __datadog_other_9 = 1; return a + b; }\n' })
     return js
   }
@@ -96,7 +97,7 @@ async function execute (plan, table) {
   const rep = { events: 0, logDigest: 0, violations: [], notes: [], stats: {}, shapes: [], cells: [] }
   const st = (k, n) => { rep.stats[k] = (rep.stats[k] || 0) + (n === undefined ? 1 : n) }
   if (plan.mode === 'h5') {
-    const resp = table.get({ cfg: cfgOf('sim'), prng_seed: 1, file: FILE, code: plan.text })
+    const resp = table.get({ cfg: cfgOf(plan.prefix || 'sim'), prng_seed: 1, file: FILE, code: plan.text })
     const o = executeH5(plan, resp, FILE)
     rep.violations = o.violations
     for (const k of Object.keys(o.stats)) st(k, o.stats[k])
@@ -112,7 +113,7 @@ async function execute (plan, table) {
   const resp = table.get(job)
   const log = []
   if (!resp.ok) {
-    rep.notes.push('rewrite failed: ' + String(resp.err || resp.panic).slice(0, 100))
+    rep.notes.push('GEN: rewrite failed: ' + String(resp.err || resp.panic).slice(0, 100))
     rep.logDigest = fnv32('rewrite failed')
     return rep
   }
@@ -124,7 +125,7 @@ async function execute (plan, table) {
   // business, not the rewriter's
   const orig = await runProgram(r.text, r, plan, false)
   const origMsgs = new Set(orig.world.exceptions.map(e => e.msg))
-  if (orig.loadError) { rep.notes.push('generated program does not load: ' + String(orig.loadError.message).slice(0, 100)); return rep }
+  if (orig.loadError) { rep.notes.push('GEN: generated program does not load: ' + String(orig.loadError.message).slice(0, 100)); return rep }
   const rw = await runProgram(resp.ok.content, r, plan, true)
   const w = rw.world
   // an exception cannot be attributed to a site: in programs that contain an operation in a
